@@ -102,6 +102,44 @@ pub fn consolidate_to_current(updates: &mut Vec<Update>) {
     updates.truncate(write_idx);
 }
 
+/// Fold updates into the current *set* of tuples by applying them in logical-time order.
+///
+/// The in-memory engine has set semantics: inserting a tuple that is already present and
+/// deleting a tuple that is absent are no-ops, yet both are logged as `+1` / `-1` updates.
+/// Summing diffs (multiset semantics) therefore diverges from the state the running engine
+/// served, e.g. `delete t; insert t` sums to 0 and `insert t; insert t; delete t` sums to +1.
+/// A tuple is present exactly when its latest update (by logical time, ties in log order) is
+/// an insert. This is also idempotent when an update is seen twice, which happens when a WAL
+/// entry is replayed on top of an already-flushed batch after a crash.
+///
+/// Returns the tuples sorted by value.
+pub fn fold_to_current_set(updates: &[Update]) -> Vec<Tuple> {
+    // Group by tuple identity (`Eq`/`Hash` compare value kinds and exact bits). Grouping must
+    // not rely on `Ord`: float ordering treats NaN as equal to everything, so sorting cannot be
+    // trusted to place identical tuples next to each other.
+    let mut latest: std::collections::HashMap<&Tuple, &Update> =
+        std::collections::HashMap::with_capacity(updates.len());
+    for update in updates {
+        latest
+            .entry(&update.data)
+            .and_modify(|current| {
+                // Later logical time wins; equal times keep log order (the later entry wins).
+                if update.time >= current.time {
+                    *current = update;
+                }
+            })
+            .or_insert(update);
+    }
+
+    let mut tuples: Vec<Tuple> = latest
+        .into_values()
+        .filter(|u| u.diff > 0)
+        .map(|u| u.data.clone())
+        .collect();
+    tuples.sort();
+    tuples
+}
+
 /// Convert consolidated updates to current tuples.
 ///
 /// Returns only tuples with positive multiplicity (i.e., tuples that exist).
@@ -137,6 +175,31 @@ pub fn filter_since(updates: &[Update], since: u64) -> Vec<Update> {
 #[allow(clippy::unwrap_used)]
 mod tests {
     use super::*;
+
+    #[test]
+    fn test_fold_to_current_set_matches_set_semantics() {
+        let t = Tuple::from_pair(1, 2);
+        // delete of an absent tuple followed by an insert: present
+        let updates = vec![Update::delete(t.clone(), 1), Update::insert(t.clone(), 2)];
+        assert_eq!(fold_to_current_set(&updates), vec![t.clone()]);
+        // duplicate insert followed by one delete: absent
+        let updates = vec![
+            Update::insert(t.clone(), 1),
+            Update::insert(t.clone(), 2),
+            Update::delete(t.clone(), 3),
+        ];
+        assert!(fold_to_current_set(&updates).is_empty());
+        // order of the log does not matter, logical time does
+        let updates = vec![Update::delete(t.clone(), 3), Update::insert(t.clone(), 1)];
+        assert!(fold_to_current_set(&updates).is_empty());
+        // a replayed (duplicated) update is idempotent
+        let updates = vec![
+            Update::insert(t.clone(), 1),
+            Update::insert(t.clone(), 1),
+            Update::delete(t.clone(), 2),
+        ];
+        assert!(fold_to_current_set(&updates).is_empty());
+    }
 
     #[test]
     fn test_consolidate_empty() {
